@@ -5,8 +5,8 @@
     entry of the available-fixtures memo denotes, name by name, what the cold computation
     denotes ([av_ok]).  Analyses and closes leave no current entry; queries store only
     what the invariant allows. *)
-From PLS Require Import Check.C07 Proofs.Basics Proofs.CacheValid Proofs.Termination Proofs.ImportClosure Proofs.Available Proofs.Agree.
-From Coq Require Import Lia Relations.
+From PLS Require Import Check.C07 Proofs.Basics Proofs.CacheValid Proofs.Termination Proofs.ImportClosure Proofs.Available Proofs.Agree Proofs.SortUnique.
+From Coq Require Import Lia Relations Sorting.Sorted Permutation.
 
 Section Warm.
   Variable dk : disk.
@@ -101,17 +101,59 @@ Section Warm.
     rewrite !available_lookup_cascade. now apply cascade_warm.
   Qed.
 
+  (** the per-file view is a list sorted by name with one entry per name: two such lists that
+      denote the same definition for every name are the same list *)
+  Definition name_leb (a b : fdef) : bool := String.leb (d_name a) (d_name b).
+  Notation sorted := (StronglySorted (fun a b => name_leb a b = true)).
+
+  Lemma available_cold_sorted s F : sorted (available_cold dk roots s F).
+  Proof.
+    unfold available_cold. apply isort_sorted.
+    - intros a b. apply String.leb_total.
+    - intros a b c. apply string_leb_trans.
+  Qed.
+
+  Lemma lookup_some n l d : lookup_av n l = Some d -> In d l /\ d_name d = n.
+  Proof. unfold lookup_av. intros H. apply find_some in H as [H E]. split; [exact H|now apply String.eqb_eq]. Qed.
+  Lemma nd_lookup_in l d : ND l -> In d l -> lookup_av (d_name d) l = Some d.
+  Proof.
+    unfold ND, lookup_av. induction l as [|x l IH]; intros Hnd Hin; [destruct Hin|]. cbn [find map] in *.
+    inversion Hnd as [|? ? Hx Hnd']; subst. destruct Hin as [->|Hin]; [now rewrite String.eqb_refl|].
+    destruct (String.eqb (d_name x) (d_name d)) eqn:E; [|now apply IH].
+    exfalso. apply Hx. apply String.eqb_eq in E. rewrite E. now apply in_map.
+  Qed.
+
+  Lemma views_equal l1 l2 : ND l1 -> ND l2 -> sorted l1 -> sorted l2 ->
+    (forall n, lookup_av n l1 = lookup_av n l2) -> l1 = l2.
+  Proof.
+    intros N1 N2 S1 S2 L. apply (sorted_perm_unique fdef name_leb); [|exact S1|exact S2|].
+    - intros a b Ha Hb H1 H2. pose proof (String.leb_antisym _ _ H1 H2) as E.
+      pose proof (nd_lookup_in l1 a N1 Ha) as La. pose proof (nd_lookup_in l1 b N1 Hb) as Lb.
+      rewrite E in La. congruence.
+    - apply NoDup_Permutation; [eapply NoDup_map_inv; exact N1|eapply NoDup_map_inv; exact N2|].
+      intros d. split; intros H.
+      + pose proof (nd_lookup_in l1 d N1 H) as X. rewrite L in X. now apply lookup_some in X.
+      + pose proof (nd_lookup_in l2 d N2 H) as X. rewrite <- L in X. now apply lookup_some in X.
+  Qed.
+
+  Theorem available_cold_warm_eq s F : memo_ok s ->
+    available_cold dk roots s F = available_cold dk roots (cold s) F.
+  Proof.
+    intros M. apply views_equal; [apply available_names_nodup|apply available_names_nodup
+                                  |apply available_cold_sorted|apply available_cold_sorted|].
+    intros n. now apply available_cold_lookup_warm.
+  Qed.
+
   Definition av_ok (s : index) : Prop :=
-    forall F l, av_hit s F = Some l ->
-                forall n, lookup_av n l = lookup_av n (available_cold dk roots (cold s) F).
+    forall F l, av_hit s F = Some l -> l = available_cold dk roots (cold s) F.
 
   Lemma av_ok_no_current s : no_current s -> av_ok s.
   Proof. intros Hn F l H. rewrite (av_hit_none s F Hn) in H. discriminate. Qed.
 
-  Lemma available_warm s F n : memo_ok s -> av_ok s ->
-    lookup_av n (available dk roots s F) = lookup_av n (available_cold dk roots (cold s) F).
+  Lemma available_warm s F : memo_ok s -> av_ok s ->
+    available dk roots s F = available_cold dk roots (cold s) F.
   Proof.
-    intros M A. unfold available. destruct (av_hit s F) as [l|] eqn:E; [now apply (A F l E)|now apply available_cold_lookup_warm].
+    intros M A. unfold available. destruct (av_hit s F) as [l|] eqn:E; [now apply (A F l E)|now apply available_cold_warm_eq].
   Qed.
 
   (** ** association lists *)
@@ -153,7 +195,7 @@ Section Warm.
 
   Lemma imp_store_av_ok s x : av_ok s -> av_ok (imp_store dk roots s x).
   Proof.
-    intros A F l H n. destruct (imp_store_av s x) as [E1 E2]. pose proof (imp_store_base s x) as B.
+    intros A F l H. destruct (imp_store_av s x) as [E1 E2]. pose proof (imp_store_base s x) as B.
     unfold same_base in B. rewrite B. apply (A F l). unfold av_hit in *. now rewrite E1, E2 in H.
   Qed.
 
@@ -207,11 +249,11 @@ Section Warm.
     - (* the imported-fixtures memo is that of s1 *)
       intros file c names Hc Hh n. rewrite (Cl_base s s2 file n B2), <- (Cl_base s s1 file n B1).
       apply (w_memo s1 H1 file c names); [exact Hc|exact Hh].
-    - intros F' l Hh n. unfold same_base in B2. rewrite B2.
+    - intros F' l Hh. unfold same_base in B2. rewrite B2.
       unfold av_hit, s2 in Hh. cbn [av_cache set_av_cache version] in Hh. rewrite alookup_ainsert in Hh.
       destruct (path_eqb F F') eqn:EF.
       + apply path_eqb_eq in EF. subst F'. rewrite V1, N.eqb_refl in Hh. injection Hh as <-.
-        apply available_cold_lookup_warm. exact (w_memo s H).
+        apply available_cold_warm_eq. exact (w_memo s H).
       + apply (w_av s H F' l). unfold av_hit. rewrite <- A1, <- V1. exact Hh.
   Qed.
 
@@ -243,11 +285,10 @@ Section Warm.
   Theorem warm_equals_cold_everywhere s : reached s ->
     (forall flt F n, closest_with dk roots s flt F n = closest_with dk roots (cold s) flt F n) /\
     (forall n file, is_imported dk roots s n file = is_imported dk roots (cold s) n file) /\
-    (forall F n, lookup_av n (available dk roots s F) = lookup_av n (available_cold dk roots (cold s) F)) /\
-    (forall F, NoDup (map d_name (available_cold dk roots (cold s) F))).
+    (forall F, available dk roots s F = available_cold dk roots (cold s) F).
   Proof.
     intros R. destruct (reached_ok s R) as [M A _].
     split; [intros; now apply closest_with_warm|]. split; [intros; now apply is_imported_warm|].
-    split; [intros; now apply available_warm|]. intros F. apply available_names_nodup.
+    intros; now apply available_warm.
   Qed.
 End Warm.
